@@ -127,6 +127,15 @@ def same(a, b):
     return type(a) in (int, float) and type(b) in (int, float) and a == b or (type(a) is type(b) and a == b)
 
 
+def divides_some(spec):
+    """is `spec` a list of 2..3 reals, or a list of lists one of which holds 2..3 reals (nothing else than reals anywhere)?"""
+    if not isinstance(spec, list) or not spec:
+        return False
+    if all(is_real(t) for t in spec):
+        return len(spec) in (2, 3)
+    return all(isinstance(r, list) and all(is_real(t) for t in r) for r in spec) and any(len(r) in (2, 3) for r in spec)
+
+
 class ThresholdCorr(Corr):
     name = "set_thresholds"
     header = ("From Coq Require Import String List Bool QArith.\nFrom PE Require Import Base.CaseUtil Model.PyVal Model.Threshold.\n"
@@ -141,6 +150,7 @@ class ThresholdCorr(Corr):
         specs = []
         # witnesses first (the repaired F9, zero labels, doc examples)
         specs += [[[1.0, "a"]], [[[1.0]]], 1.0, [], [[2.0], [3.0, 4.0]], [1.0, [2.0]], [[1.0, 2.0, 3.0]], [1.0, 2.0]]
+        specs += [[0.5, 1.5], [0.5, 1.5, 2.5], [[0.5, 1.5]], [[1.0], [0.5, 1.5]], [[0.5, 1.5, 2.5], [1.0]], [[0.5, 1.5], [2.5, 3.5]], [0, 0.0], [[0, 0.0, 0]]]
         # nesting 0 and 1: every atom, every list of <= L atoms
         specs += list(ATOMS)
         flat = [list(t) for k in range(0, L + 1) for t in itertools.product(ATOMS, repeat=k)]
@@ -175,6 +185,10 @@ class ThresholdCorr(Corr):
                 continue
             seen.add(key)
             k_ns = ns if not has_tuple(j) and depth(j) <= 3 else sorted(set(ns) | {5})
+            if divides_some(s):
+                # a list (or a row) of 2 or 3 numbers: also for 4 and 6 labels, counts it DIVIDES without being equal to them or to 1
+                # (tiling such a list up to the label count instead of rejecting it would go unnoticed for 0..3 labels)
+                k_ns = sorted(set(k_ns) | {4, 6})
             out.append({"spec": j, "ns": k_ns})
         return out
 
@@ -265,7 +279,9 @@ class ThresholdCorr(Corr):
 
     def distribution(self, cases, obs):
         d = {"specs": len(cases), "calls": 0, "accepted_flat": 0, "accepted_nested": 0, "ThresholdError": 0, "TypeError": 0,
-             "by_depth": {}, "with_tuple": 0}
+             "by_depth": {}, "with_tuple": 0,
+             "calls_where_a_list_or_row_length_properly_divides_the_label_count": sum(
+                 1 for c in cases if divides_some(dec(c["spec"])) for n in c["ns"] if n in (4, 6)) * 2}
         for c, ob in zip(cases, obs):
             dp = str(depth(c["spec"]))
             d["by_depth"][dp] = d["by_depth"].get(dp, 0) + 1
@@ -605,6 +621,22 @@ class ConfigCorr(Corr):
                         c.update(target_labels=list(tl), merge_similar_labels=merge)
                         out.append(self._mk(c, frame, valid=supported_task and len(set(tl)) == len(tl) and not merge,
                                             tag=f"target_labels {tl} merge={merge} {task}/{variant}"))
+            # ... and the SAME labels in another order while the per-label lists hold a DIFFERENT value for every label: the lists are
+            # positional, so every list must come out exactly as given (not re-sorted along the labels' enum order)
+            if supported_task and len(b.get("target_labels") or []) == 4:
+                for perm in ((2, 3, 0, 1), (3, 1, 2, 0)):
+                    c = copy.deepcopy(b)
+                    c["target_labels"] = [b["target_labels"][i] for i in perm]
+                    for k, v in (("max_x_position", [102.5, 90.0, 80.0, 70.0]), ("max_y_position", [40.0, 30.0, 20.0, 10.0]),
+                                 ("max_distance", [100.0, 90.0, 80.0, 70.0]), ("min_distance", [1.0, 2.0, 3.0, 0.0]),
+                                 ("min_point_numbers", [3, 2, 1, 0]), ("max_matchable_radii", [5.0, 4.0, 3.0, 2.0])):
+                        if k in c:
+                            c[k] = list(v)
+                    c["confidence_threshold"] = [0.5, 0.25, 0.0, 0.75]
+                    for k in METRIC_KEYS:
+                        if k in c:
+                            c[k] = [[1.0, 2.0, 3.0, 4.0], [0.5]]
+                    out.append(self._mk(c, frame, valid=True, tag=f"labels permuted {perm}, distinct per-label values {task}/{variant}"))
             muts = mutations_of(b)
             for m in muts:
                 c = copy.deepcopy(b)
@@ -638,6 +670,25 @@ class ConfigCorr(Corr):
                     c = copy.deepcopy(b)
                     c.update(cmb)
                     out.append(self._mk(c, frame, tag=f"all four range keys, falsy values {task}/{variant}"))
+            # falsy but VALID values of optional keys, one at a time: a threshold of exactly 0 / 0.0 / [0], an empty uuid / attribute
+            # list, a switch set to False -- they are values ("is None" is the test for "not given"), so the configuration is accepted
+            # and a zero threshold is normalised to one zero per label like any other number
+            if supported_task:
+                falsy_ok = {"confidence_threshold": [0.0, 0, [0.0]], "max_matchable_radii": [0.0, [0]], "min_point_numbers": [0, [0]],
+                            "target_uuids": [[]], "ignore_attributes": [[]], "merge_similar_labels": [False], "allow_matching_unknown": [False],
+                            "count_label_number": [False], "uuid_matching_first": [False]}
+                if "max_distance" in b:
+                    falsy_ok["min_distance"] = [0.0, 0, [0.0]]
+                if "max_x_position" in b:
+                    falsy_ok["max_x_position"] = [0.0, [0]]
+                    falsy_ok["max_y_position"] = [0]
+                for key, vals in falsy_ok.items():
+                    for fv in vals:
+                        if key in b and enc(b[key]) == enc(fv):
+                            continue
+                        c = copy.deepcopy(b)
+                        c[key] = copy.deepcopy(fv)
+                        out.append(self._mk(c, frame, valid=True, tag=f"falsy but valid {key}={fv!r} {task}/{variant}"))
             pairs = [(a, bb) for i, a in enumerate(muts) for bb in muts[i + 1:] if a[1] != bb[1]]
             for a, bb in (pairs if len(pairs) <= n_pairs else rng.sample(pairs, n_pairs)):
                 c = copy.deepcopy(b)
@@ -794,7 +845,7 @@ class ConfigCorr(Corr):
                 if not (isinstance(v, list) and all(isinstance(r, list) and len(r) == n and all(is_real(x) for x in r) for r in v)):
                     bad.append(("lists", f"{cname}.{key} = {v!r}: rows are not {n} real numbers each"))
                 elif not has_tuple(enc(given)):
-                    want = documented(given, n, True) if given else []
+                    want = documented(given, n, True) if (given is not None and given != []) else []   # presence, not truthiness: 0 / 0.0 is a threshold (/repo 9bf00e4)
                     if want is None or not same(v, want):
                         bad.append(("lists", f"{cname}.{key} = {v!r} but {given!r} normalises to {want!r}"))
         want_cfgs = {"det": task in ("detection", "detection2d", "tracking", "tracking2d"), "trk": task in ("tracking", "tracking2d"),
@@ -823,7 +874,9 @@ class ConfigCorr(Corr):
     def distribution(self, cases, obs):
         d = {"accepted": 0, "errors": {}, "per_task": {}, "known_classes": {"F7": 0, "F8": 0}, "switches": dict(switches()),
              "task_as_enum_member": 0, "frames_as_tuple": 0, "target_label_order_cases": 0, "target_label_lists_compared": 0,
-             "unknown_key_accepted": {}, "supported_tasks_pinned": supported("perception")}
+             "unknown_key_accepted": {}, "supported_tasks_pinned": supported("perception"),
+             "falsy_but_valid_values": sum(1 for c in cases if c["tag"].startswith("falsy but valid")),
+             "permuted_labels_with_distinct_per_label_values": sum(1 for c in cases if c["tag"].startswith("labels permuted"))}
         for c, o in zip(cases, obs):
             d["task_as_enum_member"] += any(is_enum_task(k, v) for k, v in c["cfg"])
             d["frames_as_tuple"] += isinstance(c["frame"], dict)
@@ -896,6 +949,10 @@ class FrameConfigCorr(Corr):
                  "confidence_threshold_list": [0.5, 0.5, 0.5, 0.5]},
                 {"target_labels": labels},
             ]
+            # the same labels in another order, every list with a different value per label (the lists are positional)
+            pc = {"target_labels": [labels[2], labels[3], labels[0], labels[1]], "max_x_position_list": [100.0, 90.0, 80.0, 70.0],
+                  "max_y_position_list": [10.0, 20.0, 30.0, 40.0], "min_point_numbers": [3, 2, 1, 0], "confidence_threshold_list": [0.5, 0.25, 0.0, 0.75]}
+            out.append({"cls": "critical", "eval": kind, "args": [[k, enc(v)] for k, v in pc.items()], "valid": True})
             for b in bases:
                 out.append({"cls": "critical", "eval": kind, "args": [[k, enc(v)] for k, v in b.items()], "valid": kind != "3d" or len(b) > 1})
                 if kind == "3d":
@@ -921,6 +978,9 @@ class FrameConfigCorr(Corr):
                     out.append({"cls": "critical", "eval": kind, "args": [[kk, enc(vv)] for kk, vv in c.items()], "valid": False})
             pb = {"target_labels": labels, "matching_threshold_list": [2.0, 2.0, 2.0, 2.0]}
             out.append({"cls": "passfail", "eval": kind, "args": [[k, enc(v)] for k, v in pb.items()], "valid": True})
+            pp = {"target_labels": [labels[3], labels[0], labels[2], labels[1]], "matching_threshold_list": [4.0, 1.0, 3.0, 0.0],
+                  "confidence_threshold_list": [0.0, 0.75, 0.25, 0.5]}
+            out.append({"cls": "passfail", "eval": kind, "args": [[k, enc(v)] for k, v in pp.items()], "valid": True})
             for k in PF_KEYS:
                 for v in LIST_VALUES:
                     for tl in (labels, None, ["car"], labels + ["bus"]):
@@ -1063,13 +1123,13 @@ class KeysCorr(Corr):
                 (DetectionMetricsConfig, TrackingMetricsConfig, ClassificationMetricsConfig)}
         src = inspect.getsource(_MetricsConfigBase.__init__)
         return {"read": sorted(read), "m_params": m_keys, "signatures": sigs,
-                "thresholds_by_truthiness": all(f"if {k}:" in src for k in METRIC_KEYS)}
+                "thresholds_by_presence": all(f"if {k} is not None and {k} != []:" in src for k in METRIC_KEYS)}
 
     def coq_term(self, case, obs):
         L = llit([slit(k) for k in obs["read"]])
         M = llit([slit(k) for k in (obs["m_params"] or []) if k != "target_labels"])
         return (f"(forallb (fun k => mem_str k {L}) read_keys && forallb (fun k => mem_str k read_keys) {L} && "
-                f"list_eqb String.eqb metric_keys {M} && {blit(obs['thresholds_by_truthiness'])})")
+                f"list_eqb String.eqb metric_keys {M} && {blit(obs['thresholds_by_presence'])})")
 
     def coq_debug(self, case, obs):
         return "(read_keys, metric_keys)"
@@ -1183,7 +1243,10 @@ class SensingConfigCorr(Corr):
         extras = [{}, {"target_uuids": ["u1", "u2"], "box_scale_0m": 1.5, "box_scale_100m": 2.0, "min_points_threshold": 3},
                   {"box_scale_0m": 0.5}, {"label_prefix": "autoware"}, {"label_prefix": "traffic_light"}, {"label_prefix": "foo"},
                   {"label_prefix": "blinker"}, {"label_prefix": None}, {"merge_similar_labels": True, "count_label_number": False},
-                  {"target_uuids": None, "min_points_threshold": 0}]
+                  {"target_uuids": None, "min_points_threshold": 0},
+                  # falsy values are values: they are exposed as given, not replaced by the defaults
+                  {"target_uuids": [], "box_scale_0m": 0.0, "box_scale_100m": 0, "min_points_threshold": 0},
+                  {"box_scale_100m": 0.0, "count_label_number": False, "merge_similar_labels": False}]
         out = []
 
         def mk(task, frame, extra, drop_task=False):
@@ -1295,7 +1358,8 @@ class CheckersCorr(Corr):
     def cases(self, tier, rng):
         thorough = tier != "quick"
         ns = list(range(0, 5 if thorough else 4))
-        specs = [[[1.0, "a"]], [[[1.0]]], 1.0, [], [[]], [[], []], [[2.0], [3.0, 4.0]], [1.0, [2.0]], [[1.0, 2.0, 3.0]], [1.0, 2.0], "ab", None,
+        specs = [[0.5, 1.5], [0.5, 1.5, 2.5], [[0.5, 1.5]], [[0.5, 1.5], [2.5, 3.5]], [[0.5, 1.5, 2.5], [1.0, 2.0, 3.0]],
+                 [[1.0, "a"]], [[[1.0]]], 1.0, [], [[]], [[], []], [[2.0], [3.0, 4.0]], [1.0, [2.0]], [[1.0, 2.0, 3.0]], [1.0, 2.0], "ab", None,
                  (1.0, 2.0), [(1.0, 2.0)], ([1.0, 2.0],), [[1.0, 2.0], (1.0, 2.0)], [[1.0, 2.0], "ab"], [[1.0, 2.0], None], [[1.0, 2.0], 3.0]]
         # already normal values for every n, and their near misses: a short / long / empty / non-numeric / non-list row
         vals = [1.0, 2, True, 0.5]
@@ -1330,7 +1394,8 @@ class CheckersCorr(Corr):
             key = core.canon(j)
             if key not in seen:
                 seen.add(key)
-                out.append({"spec": j, "ns": ns if depth(j) <= 2 and not has_tuple(j) else sorted(set(ns) | {5})})
+                k_ns = ns if depth(j) <= 2 and not has_tuple(j) else sorted(set(ns) | {5})
+                out.append({"spec": j, "ns": sorted(set(k_ns) | {4, 6}) if divides_some(s) else k_ns})
         return out
 
     def run_impl(self, case):
@@ -1405,6 +1470,8 @@ class CheckersCorr(Corr):
 class C15(Prop):
     id = "C15"
     props_file = "Props/C15.v"
+    # redundant tie (core.gen_tie): these functions, translated from the source on every run, equal the hand model for all inputs
+    gen_tie_theorems = ['GenTie_get_thresholds', 'GenTie_get_nested_thresholds', 'GenTie_check_thresholds', 'GenTie_check_nested_thresholds', 'GenTie_set_thresholds', 'GenTie_check_tasks', 'GenTie_set_target_lists', 'GenTie_extract_label_params', 'GenTie_extract_label_params_model', 'GenTie_extract_params', 'GenTie_extract_params_model', 'GenTie_critical_init', 'GenTie_critical_call', 'GenTie_critical_call_outside', 'GenTie_passfail_init', 'GenTie_passfail_call', 'GenTie_passfail_call_outside', 'GenTie_sensing_extract_params']
     gen_files = ["ConfigTables.v", "Enums.v", "LabelTables.v"]
     design_ref = "DESIGN.md section 4, C15"
     technique = ("Rocq proof about executable Gallina models of common/threshold.py and of configuration acceptance "
@@ -1442,7 +1509,14 @@ class C15(Prop):
             "(str, list, tuple; 0-2 ids) + 9 parameter sets (documented keys, label_prefix variants); "
             "check_thresholds: both checkers directly on already-normal lists for n in 0..3,5 (1-4 rows), 10 near misses of each (long / short / "
             "empty / non-numeric / non-list / tuple row), samples of the set_thresholds family, n in 0..3 (0..4); "
-            "per-frame configs also on fp_validation and tracking2d evaluators (range keys only)")
+            "per-frame configs also on fp_validation and tracking2d evaluators (range keys only); "
+            "order: every valid 4-label base and the per-frame configs also with the SAME labels in two other orders and a different value "
+            "per label in every per-label list (lists are positional: each must come out exactly as given); "
+            "numeric edges: lists / rows of 2 or 3 numbers are also normalised and checked for 4 and 6 labels (a length that properly divides "
+            "the label count must be rejected, not tiled); every valid base with ONE optional key set to a falsy but valid value "
+            "(confidence_threshold / max_matchable_radii / min_point_numbers / min_distance / max_x_position = 0, 0.0 or [0]; empty "
+            "target_uuids / ignore_attributes; switches False) must be ACCEPTED with a zero per label; sensing parameters 0 / 0.0 / [] "
+            "are exposed as given, not replaced by their defaults")
     assumptions = [
         "Python values restricted to int/float (finite), bool, str, None, list, tuple",
         "number of target labels >= 1 for idempotence (set_target_lists never returns an empty list; C15_zero_labels states the n = 0 behaviour)",
